@@ -52,7 +52,8 @@ def _gen(g):
             else:
                 script.append([k, d, g.choice([-1, 0, 0, 1]), g.choice([0, 0, 1, 2]), g.chance(25)])
         actors.append(script)
-    return {"config": g.choice(["S", "S", "E", "U"]), "fast": g.chance(25), "actors": actors}
+    return {"config": g.choice(["S", "S", "E", "U"]), "fast": g.chance(25), "actors": actors,
+            "nest": g.choice([0, 0, 1, 2]), "adapter": g.chance(20)}
 
 
 _strategy = composite(_gen)
@@ -66,8 +67,12 @@ def run_case(case) -> Outcome:
     out = Outcome()
     stats = {"cancel_queued": 0, "release_2plus": 0, "handoff_cancel": 0, "native": 0}
 
+    # a lock created outside any event loop is an adapter that binds to the backend on first use
+    prebuilt = Lock(fast_acquire=case["fast"]) if case.get("adapter") else None
+
     async def body(sim):
-        lock = Lock(fast_acquire=case["fast"])
+        sim.nest = case.get("nest", 0)
+        lock = prebuilt if prebuilt is not None else Lock(fast_acquire=case["fast"])
         holder = [None]
         waiting = {}          # aid -> [seq, call_cycle]  acquire called, not yet returned/raised
         seq = [0]
